@@ -6,3 +6,6 @@ import RSVerif.Properties.C06
 #print axioms RS.valid_use_succeeds
 #print axioms RS.oneshot_truthful
 #print axioms RS.flat_memory_panic_free_iff
+#print axioms RS.source_errors_truthful
+#print axioms RS.source_valid_calls_succeed
+#print axioms RS.source_simulates_model
